@@ -313,59 +313,63 @@ theorem C19_marker_stream_vs_stock_plain (e : Env) (tb : Tables) (hl : e.noLineP
 
 /-! ## Round 2: `Parser.subparse` autoindent wrapping composed with `lineprefix` (`Model/Autoindent.lean`) -/
 
-/-- What `subparse` does with a begin token: `{{* e }}` at indentation `w` (begin token `w{{*`, T2) becomes the
-`lineprefix` filter with argument exactly `w` around the expression and renders as `lineprefix w (output of e)`;
-a statement `{%* … %}` becomes a filter block and renders as `lineprefix w (output of the statement)`; a begin token
-that does not end in `*` is not wrapped; a `*` on an end / intermediate tag (`{%* endif %}`) is ignored — the
-enclosing statement is closed exactly as by the plain tag. -/
-theorem C19_subparse_wraps_marked_constructs (st : Stmts) (V : Val) (fuel : Nat) (ends : List Str) (w e : Str)
-    (c : Char) (v name arg : Str) (n : Node) (is : List Item) :
-    (subparse st (fuel + 1) ends (.var (w ++ ['{', c, '*']) e :: is) =
-        (match subparse st fuel ends is with
+/-- What `subparse` (repaired: the marker is the start string followed by `*`) does with a begin token: `{{* e }}` at
+indentation `w` (begin token `w{{*`, T2) becomes the `lineprefix` filter with argument exactly `w` around the expression and
+renders as `lineprefix w (output of e)`; a statement `{%* … %}` becomes a filter block and renders as
+`lineprefix w (output of the statement)`; a begin token that is not a marker is not wrapped; a `*` on an end /
+intermediate tag (`{%* endif %}`) is ignored — the enclosing statement is closed exactly as by the plain tag. -/
+theorem C19_subparse_wraps_marked_constructs (bo : Str → Option (List Str × Str)) (V : Val) (fuel : Nat)
+    (ends : List Str) (w e : Str) (v name arg : Str) (n : Node) (is : List Item) :
+    (subparse (repaired bo) (fuel + 1) ends (.var (w ++ ['{', '{', '*']) e :: is) =
+        (match subparse (repaired bo) fuel ends is with
          | .ok (ns, e', r) => .ok (.exprWrapped w e :: ns, e', r)
          | .error x => .error x)) ∧
       renderNode V (.exprWrapped w e) = lineprefix w (V.expr e) ∧
-      renderNode V (wrapStmt (w ++ ['{', c, '*']) n) = lineprefix w (renderNode V n) ∧
-      (endsStar v = false →
-        subparse st (fuel + 1) ends (.var v e :: is) =
-            (match subparse st fuel ends is with
+      renderNode V (wrapStmt (repaired bo) (w ++ ['{', '%', '*']) n) = lineprefix w (renderNode V n) ∧
+      (markerTest true v = false →
+        subparse (repaired bo) (fuel + 1) ends (.var v e :: is) =
+            (match subparse (repaired bo) fuel ends is with
              | .ok (ns, e', r) => .ok (.expr e :: ns, e', r)
-             | .error x => .error x) ∧
-          wrapStmt v n = n) ∧
-      (ends.contains name = true → subparse st (fuel + 1) ends (.tag v name arg :: is) = .ok ([], some name, is)) := by
-  refine ⟨?_, ?_, ?_, ?_, ?_⟩
-  · simp only [subparse, endsStar_marker, autoindentPrefix_marker, if_true]
-    cases subparse st fuel ends is with
+             | .error x => .error x)) ∧
+      (markerTest false v = false → wrapStmt (repaired bo) v n = n) ∧
+      (ends.contains name = true →
+        subparse (repaired bo) (fuel + 1) ends (.tag v name arg :: is) = .ok ([], some name, is)) := by
+  refine ⟨?_, ?_, ?_, ?_, ?_, ?_⟩
+  · simp only [subparse, repaired, markerTest_variable, autoindentPrefix_marker, if_true]
+    cases subparse ⟨bo, markerTest⟩ fuel ends is with
     | error x => rfl
     | ok r => obtain ⟨ns, e', r⟩ := r; rfl
   · simp [renderNode]
-  · simp [wrapStmt, endsStar_marker, autoindentPrefix_marker, renderNode, renderNodes]
+  · simp [wrapStmt, repaired, markerTest_block, autoindentPrefix_marker, renderNode, renderNodes]
   · intro hv
-    refine ⟨?_, ?_⟩
-    · simp only [subparse, hv, Bool.false_eq_true, if_false]
-      cases subparse st fuel ends is with
-      | error x => rfl
-      | ok r => obtain ⟨ns, e', r⟩ := r; rfl
-    · simp [wrapStmt, hv]
+    simp only [subparse, repaired, hv, Bool.false_eq_true, if_false]
+    cases subparse ⟨bo, markerTest⟩ fuel ends is with
+    | error x => rfl
+    | ok r => obtain ⟨ns, e', r⟩ := r; rfl
+  · intro hv; exact wrapStmt_noStar n hv
   · intro hn
     simp only [subparse, hn, if_true]
 
-/-- Sentence 1 for the PARSER edit (Nunavut's settings): in the token stream of a source without `{{*` / `{%*` no begin
-token ends in `*` (the upstream alternatives end in `-`, `+`, or the last character of the start string; raw begin tokens
-never reach the parser), so `Parser.subparse` builds no `lineprefix` wrapper anywhere — the tree is the one the unedited
-parser builds — and the whole model pipeline source → text is the same with the upstream lexer. -/
-theorem C19_parser_edit_invisible_without_marker (e : Env) (hl : e.noLinePrefixes) (tb : Tables) (st : Stmts)
-    (keep : Bool) (seq source : Str) (h : hasMarker e.cfg source = false) :
+/-- Sentence 1 for the PARSER edit, EVERY environment setting whose line statement prefix does not itself end in `{%*`
+(in particular prefixes that merely end in `*`, like `//*`): in the token stream of a source without `{{*` / `{%*` no
+begin token is a marker for the parser (the upstream alternatives end in `-`, `+`, or the last character of the start
+string; a line statement begin ends in its prefix; raw begin tokens never reach the parser), so `Parser.subparse` builds
+no `lineprefix` wrapper anywhere — the tree is the one the unedited parser builds — and the whole model pipeline
+source → text is the same with the upstream lexer.  (For the parser as found — marker test `endswith('*')` — this is
+FALSE under a line statement prefix ending in `*`: see the witnesses below.) -/
+theorem C19_parser_edit_invisible_without_marker (e : Env) (hP : ∀ p, e.lineStmt = some p → isBlockMarker p = false)
+    (tb : Tables) (bo : Str → Option (List Str × Str)) (keep : Bool) (seq source : Str)
+    (h : hasMarker e.cfg source = false) :
     (∀ p ∈ tokenize e tb keep seq source, parserWraps p = false) ∧
-      (∀ items ns, groupItems none (tokenize e tb keep seq source) = some items → parseItems st items = .ok ns →
-        wrapperFreeL ns = true) ∧
-      (∀ V, renderTemplate e tb st V keep seq source = renderTemplate e.upstream tb st V keep seq source) := by
-  have hno := tokenize_no_parserWraps e hl.1 hl.2 tb keep seq source h
+      (∀ items ns, groupItems none (tokenize e tb keep seq source) = some items →
+        parseItems (repaired bo) items = .ok ns → wrapperFreeL ns = true) ∧
+      (∀ st V, renderTemplate e tb st V keep seq source = renderTemplate e.upstream tb st V keep seq source) := by
+  have hno := tokenize_no_parserWraps e hP tb keep seq source h
   refine ⟨hno, ?_, ?_⟩
   · intro items ns hg hp
-    exact parseItems_wrapperFree st items
+    exact parseItems_wrapperFree bo items
       (groupItems_noStar none _ items hg hno (by intro b v acc hc; cases hc)) ns hp
-  · intro V
+  · intro st V
     unfold renderTemplate
     rw [(C19_tokeniter_eq_stock_without_marker e tb keep seq source h).2]
 
@@ -522,6 +526,17 @@ def treeOf (src : String) : Option (List Node) :=
   | none => none
 example : (treeOf "a {%- if c %} x{{ v * 2 }}{% else %}{% include 'p' %}{% endif %}").map wrapperFreeL = some true := by decide +kernel
 example : (treeOf "a {% if c %}\n  {{* v }}{% endif %}").map wrapperFreeL = some false := by decide +kernel
+-- the parser as found (marker test `endswith('*')`): under `line_statement_prefix = '//*'` every line statement is taken for an
+-- auto-indent block — a template WITHOUT marker renders differently (genuine defect, fix_marker_is_start_plus_star); repaired: as upstream
+def envLS : Env := ⟨true, false, false, false, some "//*".toList, none⟩
+def valL : Val := ⟨fun _ => "1".toList, fun _ => true, fun _ => 2, fun _ _ => []⟩
+example : hasMarker envLS.cfg "//* for x in xs\n{{ x }}\n//* endfor\nend".toList = false := by decide
+example : renderTemplate envLS asciiTables coreStmtsBeforeFix valL true "\n".toList "//* for x in xs\n{{ x }}\n//* endfor\nend".toList =
+    some "1\n1end".toList := by decide +kernel
+example : renderTemplate envLS asciiTables coreStmts valL true "\n".toList "//* for x in xs\n{{ x }}\n//* endfor\nend".toList =
+    some "1\n1\nend".toList := by decide +kernel
+example : (tokenize envLS asciiTables true "\n".toList "  //* if c".toList).map parserWrapsBeforeFix = [true, false, false, false] ∧
+    (tokenize envLS asciiTables true "\n".toList "  //* if c".toList).map parserWraps = [false, false, false, false] := by decide +kernel
 -- the two composition laws at work, and why the exact laws need their side conditions
 example : lineprefix " ".toList (lineprefix "\t".toList "a\n\nb".toList) = " \ta\n\n \tb".toList := by decide +kernel
 example : lineprefix " ".toList (lineprefix "\t".toList "a\n\n".toList) = " \ta".toList ∧
